@@ -32,6 +32,8 @@ type RunResult struct {
 	Segs       []simrt.Segment
 	TaskSteps  []int
 	World      *World
+	Sub        int      // sub-executions (crash points) folded into this result
+	Keys       []uint64 // distinct-case keys contributed (overrides the interleaving hash)
 }
 
 // RunOpts controls one execution.
@@ -65,6 +67,7 @@ func Execute(spec *RunSpec, opts RunOpts) *RunResult {
 	w.StopOn = opts.StopOn
 	w.Sequential = spec.Scenario == "S-TURN" || spec.Scenario == "S-GROW"
 	w.DeepReads = opts.DeepReads
+	w.CrashEnum = spec.Scenario == "S-CRASH-ENUM" || spec.Scenario == "S-CRASH-RAND"
 	w.DeepRefsFor = opts.DeepRefsFor
 	for _, f := range spec.Faults {
 		if f.Kind == simrt.FaultClockJump || f.Kind == simrt.FaultSlow {
